@@ -37,7 +37,7 @@ if [ ! -d $W/target ]; then
   # seed with the third-party artefacts of the main build to shorten the first build
   cp -a $V/build/target $W/target 2>/dev/null || true
 fi
-(cd $W/harness && CARGO_NET_OFFLINE=true CARGO_TARGET_DIR=$W/target cargo build --release --offline 2>&1 | tail -3)
+(cd $W/harness && CARGO_NET_OFFLINE=true CARGO_TARGET_DIR=$W/target CARGO_BUILD_JOBS=8 $V/tools/slot.py cargo 3 -- cargo build --release --offline 2>&1 | tail -3)
 mkdir -p $W/out
 cd $V
 set +e
